@@ -413,6 +413,21 @@ pub fn generate(cx: &mut Cx, rng: &mut ChaCha20Rng, round: u64) {
     // ---------------- Endemic base OT
     if let Some(s) = get_eot(cx, &sid, seed) {
         for (name, m, model) in ot_msg_mutations(rng, &s.msg1, &|_| 0) { cx.rep.hist(&format!("eot.sender:input:{name}")); cx.exec(&format!("c11 eot send {sh} {seed} {}", hex::encode(&m)), model || thorough && round % 5 == 0); }
+        // ORACLE-RELATIVE message 1: the peer can evaluate the public random oracle, so it can send r_0 = -H_0(k, sid, r_1) (or the
+        // mirror image): both points are ordinary encodings, their combination r_0 + H_0(r_1) is the identity
+        for (k, side) in [(0usize, 0usize), (255, 1), (round as usize % 256, (round % 2) as usize)] {
+            let (o_this, o_other) = (66 * k + 33 * side, 66 * k + 33 * (1 - side));
+            let other = s.msg1[o_other..o_other + 33].to_vec();
+            let h = cx.ask(&format!("eot h {side} {k} {sh} {}", hex::encode(&other)));
+            if let Ok(mut hb) = hex::decode(&h) {
+                if hb.len() == 33 && (hb[0] == 2 || hb[0] == 3) {
+                    hb[0] ^= 1;                                    // -H: the other y coordinate
+                    let mut m = s.msg1.clone(); m[o_this..o_this + 33].copy_from_slice(&hb);
+                    cx.rep.hist("eot.sender:input:oracle-relative(r_side = -H(r_other))");
+                    cx.exec(&format!("c11 eot send {sh} {seed} {}", hex::encode(&m)), true);
+                }
+            }
+        }
         let bits = s.bits;
         for (name, m, model) in ot_msg_mutations(rng, &s.msg2, &|k| bit(&bits, k)) { cx.rep.hist(&format!("eot.receiver:input:{}", name.replace(":first", ":chosen-slot").replace(":second", ":other-slot"))); cx.exec(&format!("c11 eot recv {sh} {seed} {}", hex::encode(&m)), model || thorough && round % 5 == 0); }
     }
